@@ -169,8 +169,10 @@ class ParaxSys:
         y1 = -M[0, 1] * nu / M[0, 0]
         return y1, 1.0
 
-    def chief(self, field_type, max_field):
-        y1, u0 = self.chief_slope_one()
+    def chief(self, field_type, max_field, aim=None):
+        """aim: another ParaxSys of the same prescription (e.g. at the primary wavelength) whose entrance pupil centre the
+        ray is aimed at; by default the ray goes through the centre of this system's own stop"""
+        y1, u0 = (aim or self).chief_slope_one()
         if field_type == 'angle':
             s = np.float64(math.tan(math.radians(max_field)))
         else:
